@@ -57,7 +57,8 @@ CONSTANTS Subject,     \* registered subjects (ontology node exists), strings
           PolDef,      \* [Policy -> [actions : SUBSET Action, objects : SUBSET Obj]]
           ReqObj,      \* objects that requests range over (subset of Obj)
           DeleteMode,  \* "orphan" (as written) | "cascade" | "refuse"
-          ErrOps       \* TRUE: also refused / no-op calls (unknown subject, missing role, ...)
+          ErrOps,      \* TRUE: also refused / no-op calls (unknown subject, missing role, ...)
+          MaxPending   \* bound on the number of calls inside one transaction (model size only)
 Ghost == "ghost"       \* a subject that was never registered
 Root == "root"         \* the provisioned root user
 Owner == "owner"       \* built-in role
@@ -80,12 +81,13 @@ ReqLists == {<<>>} \cup {<<o>> : o \in ReqObj} \cup {<<o1, o2>> : o1 \in ReqObj,
 
 VARIABLES view,   \* state seen through the open transaction
           com,    \* committed state (bare DB)
-          last    \* last call: [a, r, p, s, ok]
-vars == <<view, com, last>>
+          last,   \* last call: [a, r, p, s, ok]
+          pend    \* number of calls in the open transaction
+vars == <<view, com, last, pend>>
 InitSt == [rrow |-> {Owner}, rnode |-> {Owner}, prow |-> {OwnerPol}, pnode |-> {OwnerPol},
            att |-> {<<Owner, OwnerPol>>}, asg |-> {<<Owner, Root>>}]
 Call(a, r, p, s, ok) == [a |-> a, r |-> r, p |-> p, s |-> s, ok |-> ok]
-Init == view = InitSt /\ com = InitSt /\ last = Call("init", "", "", "", TRUE)
+Init == view = InitSt /\ com = InitSt /\ last = Call("init", "", "", "", TRUE) /\ pend = 0
 
 \* ---------------------------------------------------------------- enforcement
 ReachPol(st, s, roles) == {p \in st.prow : \E r \in roles : <<r, s>> \in st.asg /\ <<r, p>> \in st.att}
@@ -94,11 +96,14 @@ CodePol(st, s) == IF s \in Known THEN ReachPol(st, s, st.rnode) ELSE {}
 CoveredBy(P, a, o) == \E p \in P : a \in Def(p).actions /\ \E po \in Def(p).objects : Covers(po, o)
 PropCov(st, s, a) == {o \in ReqObj : CoveredBy(PropPol(st, s), a, o)}
 CodeCov(st, s, a) == {o \in ReqObj : CoveredBy(CodePol(st, s), a, o)}
-PropAllow(st, s, a, objs) == s \in Known /\ \A i \in 1..Len(objs) : CoveredBy(PropPol(st, s), a, objs[i])
-CodeAllow(st, s, a, objs) == s \in Known /\ \A i \in 1..Len(objs) : CoveredBy(CodePol(st, s), a, objs[i])
+\* allowRequest over a resolved policy set P
+Allow(P, s, a, objs) == s \in Known /\ \A i \in 1..Len(objs) : CoveredBy(P, a, objs[i])
+PropAllow(st, s, a, objs) == Allow(PropPol(st, s), s, a, objs)
+CodeAllow(st, s, a, objs) == Allow(CodePol(st, s), s, a, objs)
 
 \* ---------------------------------------------------------------- writer calls
-Upd(st, ok, a, r, p, s) == view' = st /\ last' = Call(a, r, p, s, ok) /\ UNCHANGED com
+Upd(st, ok, a, r, p, s) == /\ pend < MaxPending /\ pend' = pend + 1
+                           /\ view' = st /\ last' = Call(a, r, p, s, ok) /\ UNCHANGED com
 Cascade(r) == [view EXCEPT !.rrow = @ \ {r}, !.rnode = @ \ {r},
                            !.att = {e \in @ : e[1] # r}, !.asg = {e \in @ : e[1] # r}]
 CreateRole(r) ==
@@ -137,8 +142,8 @@ Unassign(r, s) ==
   /\ r \in AllRole /\ s \in Subject
   /\ (<<r, s>> \notin view.asg => ErrOps /\ r \in view.rnode)
   /\ Upd([view EXCEPT !.asg = @ \ {<<r, s>>}], TRUE, "unassign", r, "", s)
-Commit == view # com /\ com' = view /\ UNCHANGED view /\ last' = Call("commit", "", "", "", TRUE)
-Abort == view # com /\ view' = com /\ UNCHANGED com /\ last' = Call("abort", "", "", "", TRUE)
+Commit == view # com /\ com' = view /\ UNCHANGED view /\ last' = Call("commit", "", "", "", TRUE) /\ pend' = 0
+Abort == view # com /\ view' = com /\ UNCHANGED com /\ last' = Call("abort", "", "", "", TRUE) /\ pend' = 0
 
 Next == \/ \E r \in AllRole : CreateRole(r) \/ DeleteRole(r)
         \/ \E p \in Policy : DeletePolicy(p) \/ \E r \in Role : CreatePolicy(p, r) \/ Attach(r, p)
@@ -147,27 +152,38 @@ Next == \/ \E r \in AllRole : CreateRole(r) \/ DeleteRole(r)
 Spec == Init /\ [][Next]_vars
 
 \* ---------------------------------------------------------------- properties
-States == {view, com}
-TypeOK == \A st \in States :
+\* State predicates are stated over `view`: `com` is always an earlier value of `view`
+\* (Init, Commit), so they hold for the committed state as well.
+TypeOK == \A st \in {view, com} :
             /\ st.rrow \subseteq st.rnode /\ st.rnode \subseteq AllRole
             /\ st.prow \subseteq st.pnode /\ st.pnode \subseteq AllPolicy
             /\ st.att \subseteq st.rnode \X st.pnode
             /\ st.asg \subseteq st.rnode \X Known
 \* C18, the biconditional: the walk the code does grants exactly what the property says.
 \* Violated by design in DeleteMode = "orphan" (Window_DeleteRoleOrphan), holds otherwise.
-NoOrphanGrant == \A st \in States, s \in AllSubject : CodePol(st, s) = PropPol(st, s)
-Biconditional == \A st \in States, s \in AllSubject, a \in Action, l \in ReqLists :
-                   CodeAllow(st, s, a, l) <=> PropAllow(st, s, a, l)
+NoOrphanGrant == \A s \in AllSubject : CodePol(view, s) = PropPol(view, s)
+Biconditional == \A s \in AllSubject :
+                   LET cp == CodePol(view, s)  pp == PropPol(view, s)
+                   IN \A a \in Action, l \in ReqLists : Allow(cp, s, a, l) <=> Allow(pp, s, a, l)
 \* the compressed form the generator emits (covered set per subject x action) is the definition
-AllowIsCover == \A st \in States, s \in AllSubject, a \in Action, l \in ReqLists :
-                  /\ PropAllow(st, s, a, l) <=> (s \in Known /\ \A i \in 1..Len(l) : l[i] \in PropCov(st, s, a))
-                  /\ CodeAllow(st, s, a, l) <=> (s \in Known /\ \A i \in 1..Len(l) : l[i] \in CodeCov(st, s, a))
-UnknownSubjectDenied == \A st \in States, a \in Action, l \in ReqLists : ~CodeAllow(st, Ghost, a, l)
-NoRoleDenied == \A st \in States, s \in Known, a \in Action, l \in ReqLists :
-                  (l # <<>> /\ ~\E r \in st.rrow : <<r, s>> \in st.asg) => ~PropAllow(st, s, a, l)
+AllowIsCover == \A s \in AllSubject :
+                  LET cp == CodePol(view, s)  pp == PropPol(view, s)
+                  IN \A a \in Action :
+                       LET pc == {o \in ReqObj : CoveredBy(pp, a, o)}
+                           cc == {o \in ReqObj : CoveredBy(cp, a, o)}
+                       IN /\ pc = PropCov(view, s, a) /\ cc = CodeCov(view, s, a)
+                          /\ \A l \in ReqLists :
+                               /\ Allow(pp, s, a, l) <=> (s \in Known /\ \A i \in 1..Len(l) : l[i] \in pc)
+                               /\ Allow(cp, s, a, l) <=> (s \in Known /\ \A i \in 1..Len(l) : l[i] \in cc)
+UnknownSubjectDenied == \A a \in Action, l \in ReqLists : ~CodeAllow(view, Ghost, a, l)
+NoRoleDenied == \A s \in Known :
+                  (~\E r \in view.rrow : <<r, s>> \in view.asg) =>
+                     \A a \in Action, l \in ReqLists \ {<<>>} : ~PropAllow(view, s, a, l)
 \* a mixed list is denied as soon as one element is uncovered, wherever it stands
-MixedDenied == \A st \in States, s \in Known, a \in Action, l \in ReqLists :
-                 (\E i \in 1..Len(l) : l[i] \notin CodeCov(st, s, a)) => ~CodeAllow(st, s, a, l)
+MixedDenied == \A s \in Known :
+                 LET cp == CodePol(view, s)
+                 IN \A a \in Action, l \in ReqLists :
+                      (\E i \in 1..Len(l) : ~CoveredBy(cp, a, l[i])) => ~Allow(cp, s, a, l)
 \* every change is visible to the very next check in the same view
 NextCheckReflects ==
   [][ /\ (last'.a = "assign" /\ last'.ok /\ last'.r \in view'.rrow) =>
